@@ -15,7 +15,7 @@ META = {
     "level": "translation_validation",
     "engine": "E1 artifact-level SMT: the projections the real model_count loop enumerated (logged by the stand-in solver) are certified sound (one SAT query each on the reference relation) and complete (one UNSAT query); the DIMACS instance handed to approxmc is certified the same way",
     "hashseeds": {"quick": [0, 1], "thorough": [0, 1, 2, 3, 4, 5, 6, 7]},
-    "shards": {"quick": 8, "thorough": 2},
+    "shards": {"quick": 8, "thorough": 4},
     "bounds": {
         "quick": "F-shape + F-bb + F-cyc + constant-only circuits + wide circuits with 8 and 12 startpoints + 20 random DAGs; assumption sets: none, each of 4 seeded partial assignments (incl. internal nodes, constants), a contradictory one, a complete consistent one; signal_probability(approx=False) for every node of blackbox-free members (<=8 sampled); approx_model_count default mode via exact stand-in counter with DIMACS capture",
         "thorough": "same + 150 random DAGs, all nodes",
